@@ -426,6 +426,24 @@ theorem raiseAll_inv (nameOf : Pin → Nat) (w : W) (inv : WInv w) : WInv (raise
   ⟨inv.pinsNodup, inv.connToNodup, inv.structsNodup, inv.freeObj, inv.clistObj, inv.clistNodup, inv.freeNodup,
     inv.freeDisj, inv.clistConns, inv.freeComplete, inv.entryConn, inv.entryTo, inv.connsEntry⟩
 
+/-- a put either leaves the state as it was or is an add followed by a connect -/
+theorem put_noop_or_add_connect (w : W) (i s : Nat) (q : Pin) :
+    (put w i s q).1 = w ∨ (put w i s q).1 = (step (step w (.add i)).1 (.connect (i, s) q)).1 := by
+  unfold put
+  cases getObj w i with
+  | none => exact Or.inl rfl
+  | some o =>
+    dsimp only
+    split
+    · exact Or.inl rfl
+    · split
+      · exact Or.inl rfl
+      · split
+        · exact Or.inl rfl
+        · split
+          · exact Or.inr rfl
+          · exact Or.inl rfl
+
 theorem stepX_reach {pins : List Nat} (nameOf : Pin → Nat) (w : W) (r : Reach pins w) (op : OpX) :
     Reach pins (stepX nameOf w op).1 := by
   cases op with
@@ -433,6 +451,11 @@ theorem stepX_reach {pins : List Nat} (nameOf : Pin → Nat) (w : W) (r : Reach 
   | raise =>
     have sr := raiseAll_rel nameOf w
     exact ⟨raiseAll_inv nameOf w r.inv, sr.noSelf r.noSelf, sr.structsObj r.structsObj, sr.bounded r.bounded⟩
+  | put i s q =>
+    show Reach pins (put w i s q).1
+    rcases put_noop_or_add_connect w i s q with h | h
+    · rw [h]; exact r
+    · rw [h]; exact step_reach _ (step_reach w r (.add i)) (.connect (i, s) q)
 
 /-- a history of wiring calls that may also contain raise-all (`maps_all_pins`), as the driver runs it -/
 def runX (nameOf : Pin → Nat) (ops : List OpX) (pins : List Nat) : W :=
